@@ -25,7 +25,7 @@ rm -f "$W/zz_seed_demo_test.go"
 suite=$(cd "$W" && go test -vet=off -count=1 ./... 2>&1 | grep -c '^ok')
 echo "SEED $TAG: suite_ok=$suite demo_without_change=$demo_without demo_with_change=$demo_with"
 for ID in "$@"; do
-  out=$(VERIF_REPO="$W" /verif/check "$ID" ${SEED_TIER:-quick} 2>&1); rc=$?
+  out=$(VERIF_REPO="$W" ${VERIF_ROOT:-/verif}/check "$ID" ${SEED_TIER:-quick} 2>&1); rc=$?
   n=$(echo "$out" | grep -c '^VIOLATION')
   kinds=$(echo "$out" | grep -o 'kind=[a-zA-Z().-]*' | sort | uniq -c | sort -rn | head -3 | tr '\n' ' ')
   echo "  check=$ID exit=$rc violations>=$n $kinds $(echo "$out" | grep '^INCONCLUSIVE' | head -1 | cut -c1-150)"
